@@ -467,9 +467,9 @@ fn parts(ctx: &Ctx) -> Vec<PartSpec> {
     let mut v = vec![PartSpec::new("e3-local-threads", json!({"local": true}))];
     if ctx.quick() {
         for f in 0..alphabet().len() {
-            v.push(PartSpec::new(&format!("e3-d5-first{}", f), json!({"depth": 5, "first": f})).budget(50.0));
+            v.push(PartSpec::new(&format!("e3-d5-first{}", f), json!({"depth": 5, "first": f})).budget(150.0));
         }
-        v.push(PartSpec::new("e3-blocks-d4", json!({"depth": 4, "blocks": true})).budget(50.0));
+        v.push(PartSpec::new("e3-blocks-d4", json!({"depth": 4, "blocks": true})).budget(150.0));
         v.push(PartSpec::new("e1-record-vs-snapshot-pb2", json!({"e1": 2})).cpus("0"));
         v.push(PartSpec::new("e1-two-registrants-pb2", json!({"e1": 2, "two": true})).cpus("0"));
         v.push(PartSpec::new("e1-two-snapshotters-pb2", json!({"e1": 2, "snaps": true})).cpus("0"));
